@@ -2,7 +2,8 @@
    arithmetic AFlx of Proofs/RoundFlx.v (every operation = the exact one followed by round-to-nearest-even to 53 bits),
    with F = the numbers representable in that format, and a concrete division in it whose quotient is inexact:
         (1 + x) / 3  =  (c + c x)  remainder 0,   c = fl(1/3) <> 1/3
-   (two passes of the loop; the discarded leading coefficients 1 - 3 c are the error of the identity). *)
+   (two passes of the loop; the discarded leading coefficients 1 - 3 c are the error of the identity), and
+        (1 + x + x^2) / (1 + 3x)  =  (c2 + c x)  remainder y,   c2 = fl(fl(1 - c)/3),  y = fl(1 - c2). *)
 From Coq Require Import ZArith Reals Lra Lia List.
 From Flocq Require Import Core.
 From OV Require Import Base.Panic Base.Arith Base.RoundModel gen.Params Model.Poly Proofs.PolyDiv Proofs.RoundFlx Proofs.Round2Poly.
@@ -83,6 +84,72 @@ Proof.
   apply (@polydiv_passes AFlx AFlx_eqb00 (fun x y _ => ex_intro _ _ eq_refl)).
   - discriminate.
   - cbn. dec_step. reflexivity.
+  - cbn. dec_step. reflexivity.
+  - unfold POLYDIV_MAX. cbn [length]. lia.
+  - cbn [length]. lia.
+Qed.
+
+(* ---- a division with a divisor of degree 1: (1 + x + x^2) / (1 + 3x): two passes, each coefficient of the remainder
+   goes through a rounded product and a rounded subtraction *)
+Definition ex_x1 : R := xsub 1 c13.
+Definition ex_c2 : R := xdiv ex_x1 3.
+Definition ex_y : R := xsub 1 ex_c2.
+
+Lemma c13_bounds : / 4 <= c13 <= / 2.
+Proof.
+  unfold xdiv. destruct (rndx_rel (1 / 3)) as (d & Hd & ->). pose proof ux_small.
+  assert (- ux <= d <= ux) by (unfold Rabs in Hd; destruct (Rcase_abs d); lra). split; nra.
+Qed.
+Lemma ex_x1_nz : ex_x1 <> 0.
+Proof. unfold ex_x1, xsub. apply rndx_nz. pose proof c13_bounds. lra. Qed.
+Lemma ex_c2_nz : ex_c2 <> 0.
+Proof.
+  unfold ex_c2, xdiv. apply rndx_nz. pose proof ex_x1_nz as Hx. intros E. apply Hx.
+  apply (Rmult_eq_reg_r (/ 3)); [|lra]. unfold Rdiv in E. lra.
+Qed.
+
+Lemma xmul_0_l x : xmul 0 x = 0.
+Proof. unfold xmul. now rewrite Rmult_0_l, rndx_0. Qed.
+Lemma xmul_1_r x : Fx x -> xmul x 1 = x.
+Proof. intros H. unfold xmul. rewrite Rmult_1_r. now apply rndx_Fx. Qed.
+
+Lemma ex2_body1 : polydiv_body (A := AFlx) [] [1; 1; 1] [1; 3] = Ok ([0; c13], [1; ex_x1]).
+Proof.
+  pose proof xdiv13_nz as Hc. pose proof ex_x1_nz as Hx.
+  unfold polydiv_body. cbn.
+  rewrite !xmul_0_l, !(xadd_0_l 0 Fx_0), !(xadd_0_l 1 Fx_1), (xmul_1_r c13 (Fx_div 1 3)), (xsub_0_r 1 Fx_1).
+  rewrite (xadd_0_l c13 (Fx_div 1 3)). fold ex_x1.
+  repeat dec_step. reflexivity.
+Qed.
+
+Lemma ex2_body2 : polydiv_body (A := AFlx) [0; c13] [1; ex_x1] [1; 3] = Ok ([ex_c2; c13], [ex_y]).
+Proof.
+  pose proof xdiv13_nz as Hc. pose proof ex_c2_nz as Hx.
+  unfold polydiv_body. cbn. fold ex_c2.
+  rewrite !(xadd_0_l 0 Fx_0), !(xadd_0_l 1 Fx_1), (xmul_1_r ex_c2 (Fx_div _ 3)), (xadd_0_l c13 (Fx_div 1 3)).
+  rewrite !(xadd_0_l ex_c2 (Fx_div _ 3)). fold ex_y.
+  repeat dec_step. reflexivity.
+Qed.
+
+Lemma ex2_loop : polydiv_loop (A := AFlx) 3 0 [] [1; 1; 1] [1; 3] = Ok (inl ([ex_c2; c13], [ex_y])).
+Proof.
+  pose proof ex_x1_nz as Hx.
+  rewrite polydiv_loop_unfold. cbn [length is_zero forallb Nat.ltb Nat.leb orb eqb AFlx ARm andb zero].
+  repeat dec_step. cbn [andb orb]. rewrite ex2_body1. cbn [bind fst snd].
+  change (POLYDIV_MAX <? 1)%nat with false. cbv iota.
+  rewrite polydiv_loop_unfold. cbn [length is_zero forallb Nat.ltb Nat.leb orb eqb AFlx ARm andb zero].
+  repeat dec_step. cbn [andb orb]. rewrite ex2_body2. cbn [bind fst snd].
+  change (POLYDIV_MAX <? 2)%nat with false. cbv iota.
+  rewrite polydiv_loop_unfold. cbn [length is_zero forallb Nat.ltb Nat.leb orb eqb AFlx ARm andb zero].
+  repeat dec_step; reflexivity.
+Qed.
+
+Lemma ex2_polydiv : polydiv (A := AFlx) [1; 1; 1] [1; 3] = Ok (inl ([ex_c2; c13], [ex_y])).
+Proof.
+  rewrite <- ex2_loop. symmetry.
+  apply (@polydiv_passes AFlx AFlx_eqb00 (fun x y _ => ex_intro _ _ eq_refl)).
+  - discriminate.
+  - cbn. repeat dec_step; reflexivity.
   - cbn. dec_step. reflexivity.
   - unfold POLYDIV_MAX. cbn [length]. lia.
   - cbn [length]. lia.
@@ -558,6 +625,24 @@ Proof.
 Qed.
 
 
+(* the float run IS the run of the same polydiv in A64r on the real images *)
+Lemma polydiv_float_transfer (a v q r : list pfloat) :
+  polydiv (A := AF) a v = Ok (inl (q, r)) -> Ffin q -> Ffin r -> FR (last v 0%float) <> 0 ->
+  pd_nounder (S POLYDIV_MAX) [] a v ->
+  polydiv (A := A64r) (map FR a) (map FR v) = Ok (inl (map FR q, map FR r)).
+Proof.
+  intros E Hq Hr Hv P.
+  assert (Nv : v <> []) by (intros ->; apply Hv; exact FR_0).
+  assert (Hv' : FR (nth (length v - 1) v 0%float) <> 0) by (rewrite nth_last_idx; exact Hv).
+  unfold polydiv in E |- *. rewrite map_length. change (T AF) with pfloat in *.
+  destruct (length v =? 0)%nat; [discriminate|]. rewrite (is_zero_lead_false v Hv).
+  destruct (is_zero (A := AF) v); [discriminate|].
+  exact (loop_transfer_fin v _ _ [] a q r Nv Hv' E Hq Hr P).
+Qed.
+
+Lemma last_map_FR (v : list pfloat) : FR (last v 0%float) <> 0 -> last (map FR v) 0 <> 0.
+Proof. intros H. rewrite <- nth_last_idx, map_length, nth_map_FR, nth_last_idx. exact H. Qed.
+
 Theorem polydiv_rounded_identity_float_lemma (a v q r : list pfloat) :
   polydiv (A := AF) a v = Ok (inl (q, r)) -> Ffin q -> Ffin r -> FR (last v 0%float) <> 0 ->
   pd_nounder (S POLYDIV_MAX) [] a v ->
@@ -569,19 +654,37 @@ Theorem polydiv_rounded_identity_float_lemma (a v q r : list pfloat) :
                   + Rsum (S k) (fun i => Rabs (FR (nth i q 0%float)) * Rabs (FR (nth (k - i) v 0%float)))).
 Proof.
   intros E Hq Hr Hv P Hn k.
-  assert (Nv : v <> []) by (intros ->; apply Hv; exact FR_0).
-  assert (Hv' : FR (nth (length v - 1) v 0%float) <> 0) by (rewrite nth_last_idx; exact Hv).
-  assert (E' : polydiv (A := A64r) (map FR a) (map FR v) = Ok (inl (map FR q, map FR r))).
-  { unfold polydiv in E |- *. rewrite map_length. change (T AF) with pfloat in *.
-    destruct (length v =? 0)%nat; [discriminate|]. rewrite (is_zero_lead_false v Hv).
-    destruct (is_zero (A := AF) v); [discriminate|].
-    exact (loop_transfer_fin v _ _ [] a q r Nv Hv' E Hq Hr P). }
-  assert (Hl : last (map FR v) 0 <> 0).
-  { rewrite <- nth_last_idx, map_length, nth_map_FR. exact Hv'. }
+  pose proof (polydiv_float_transfer a v q r E Hq Hr Hv P) as E'.
   pose proof (polydiv_rounded_identity_lemma u64 u64_range Fadd Fsub Fmul Fdiv Fadd_ok Fsub_ok Fmul_ok Fdiv_ok
                 (fun _ => True) (fun _ _ => I) (fun _ _ => I) (fun _ _ => I)
                 (fun x _ => Fadd_0_l_all x) (fun x _ => Fadd_0_r_all x) (fun x _ => Fsub_0_r_all x)
-                (map FR v) Hl (map FR a) (map FR q) (map FR r)) as H.
+                (map FR v) (last_map_FR v Hv) (map FR a) (map FR q) (map FR r)) as H.
+  rewrite !map_length in H. specialize (H ltac:(apply Forall_forall; intros; exact I) Hn E' k).
+  rewrite !nth_map_FR in H.
+  rewrite (Rsum_ext (S k) _ (fun i => FR (nth i q 0%float) * FR (nth (k - i) v 0%float))) in H
+    by (intros i _; now rewrite !nth_map_FR).
+  rewrite (Rsum_ext (S k) (fun i => Rabs (nth i (map FR q) 0) * Rabs (nth (k - i) (map FR v) 0))
+             (fun i => Rabs (FR (nth i q 0%float)) * Rabs (FR (nth (k - i) v 0%float)))) in H
+    by (intros i _; now rewrite !nth_map_FR).
+  exact H.
+Qed.
+
+Theorem polydiv_rounded_residual_float_lemma (a v q r : list pfloat) :
+  polydiv (A := AF) a v = Ok (inl (q, r)) -> Ffin q -> Ffin r -> FR (last v 0%float) <> 0 ->
+  pd_nounder (S POLYDIV_MAX) [] a v ->
+  INR (4 * Nat.min (length a + 1 - length v) (length v)) * u64 < 1 ->
+  forall k, Rabs (FR (nth k a 0%float) - Rsum (S k) (fun i => FR (nth i q 0%float) * FR (nth (k - i) v 0%float))
+                  - FR (nth k r 0%float))
+            <= g64 (4 * Nat.min (length a + 1 - length v) (length v))
+               * (Rsum (S k) (fun i => Rabs (FR (nth i q 0%float)) * Rabs (FR (nth (k - i) v 0%float)))
+                  + Rabs (FR (nth k r 0%float))).
+Proof.
+  intros E Hq Hr Hv P Hn k.
+  pose proof (polydiv_float_transfer a v q r E Hq Hr Hv P) as E'.
+  pose proof (polydiv_rounded_residual_lemma u64 u64_range Fadd Fsub Fmul Fdiv Fadd_ok Fsub_ok Fmul_ok Fdiv_ok
+                (fun _ => True) (fun _ _ => I) (fun _ _ => I) (fun _ _ => I)
+                (fun x _ => Fadd_0_l_all x) (fun x _ => Fadd_0_r_all x) (fun x _ => Fsub_0_r_all x)
+                (map FR v) (last_map_FR v Hv) (map FR a) (map FR q) (map FR r)) as H.
   rewrite !map_length in H. specialize (H ltac:(apply Forall_forall; intros; exact I) Hn E' k).
   rewrite !nth_map_FR in H.
   rewrite (Rsum_ext (S k) _ (fun i => FR (nth i q 0%float) * FR (nth (k - i) v 0%float))) in H
